@@ -110,23 +110,23 @@ type scenario struct {
 	faults []faultSpec
 	injs   []injSpec
 
-	nw       *gnet
-	rec      *recorder
-	ctr      *quic.Transport
-	cpc      *simnet.SimConn
-	conns    []*quic.Conn
-	seen     map[int]map[string]bool // per conn: parts already processed
-	buffered map[int][]partSum       // per conn: parts queued as undecryptable, in order
-	genuine  [][]byte                // genuine s2c datagrams handed over so far (as sent by the server)
-	nGenuine int
-	trace    []*delivery
-	tracing  bool
-	hsDone   bool
-	done     chan struct{}
-	resetCh  chan struct{}
-	auth     []string
-	cands    []protocol.ConnectionID // destination connection IDs the client has used
-	srvSCIDs [][]byte                // source connection IDs seen in genuine server long-header packets
+	nw         *gnet
+	rec        *recorder
+	ctr        *quic.Transport
+	cpc        *simnet.SimConn
+	conns      []*quic.Conn
+	seen       map[int]map[string]bool // per conn: parts already processed
+	buffered   map[int][]partSum       // per conn: parts queued as undecryptable, in order
+	genuine    [][]byte                // genuine s2c datagrams handed over so far (as sent by the server)
+	nGenuine   int
+	trace      []*delivery
+	tracing    bool
+	hsDone     bool
+	done       chan struct{}
+	resetCh    chan struct{}
+	auth       []string
+	cands      []protocol.ConnectionID // destination connection IDs the client has used
+	srvSCIDs   [][]byte                // source connection IDs seen in genuine server long-header packets
 	retrySCIDs [][]byte
 }
 
@@ -464,7 +464,7 @@ func (sc *scenario) attribute(d *delivery, evs []qlogwriter.Event) {
 		sc.seen[d.conn] = seen
 	}
 	j := 0
-	last := -1 // part whose event came last
+	last := -1         // part whose event came last
 	lastExtra := false // the latest packet event belonged to a queued packet of another datagram
 	assign := func(react string) {
 		lastExtra = false
@@ -933,25 +933,25 @@ func errClass(err error) string {
 }
 
 type outcome struct {
-	dial      string
-	hang      bool
-	t         time.Duration
-	bound     time.Duration
-	attempts  int
-	cv, sv    uint32
-	calpn     string
-	salpn     string
-	c0, s0    bool
-	cids      string
-	ccids     string
-	acc       string
-	echo      string
-	cleft     int
-	sleft     int
-	redial    string
-	deadline  string
-	ztxt      string
-	monoNow   int64
+	dial     string
+	hang     bool
+	t        time.Duration
+	bound    time.Duration
+	attempts int
+	cv, sv   uint32
+	calpn    string
+	salpn    string
+	c0, s0   bool
+	cids     string
+	ccids    string
+	acc      string
+	echo     string
+	cleft    int
+	sleft    int
+	redial   string
+	deadline string
+	ztxt     string
+	monoNow  int64
 }
 
 func (o *outcome) txt() string {
